@@ -23,3 +23,72 @@ pub fn crc_byte_step(acc: u16, byte: u8) -> u16 {
 pub fn trailer_len(n: usize) -> usize {
     (n + 2usize * ((n + 15usize) / 16usize)) as usize
 }
+
+// ---- C07: what a link endpoint does with a received header (IEEE 1815 clause 9.2.4-9.2.6 and the property text).
+// Encodings: deliver 0 = nothing, 1 = user data, 2 = link status request, 3 = link status response;
+//            reply   0 = none, 1 = ACK, 2 = LINK_STATUS;   sec state 0 = NotReset, 1 = Reset(expect fcb=0), 2 = Reset(expect fcb=1)
+//            broadcast 0 = not a broadcast, 1 = 0xFFFF (confirm optional), 2 = 0xFFFE (mandatory), 3 = 0xFFFD (not required)
+#[derive(Copy, Clone, PartialEq, Eq, Debug)]
+pub struct LinkDecision {
+    pub deliver: u8,
+    pub reply: u8,
+    pub sec: u8,
+    pub broadcast: u8,
+}
+
+pub fn link_decide(ctrl: u8, dst: u16, src: u16, own_is_master: bool, self_addr_enabled: bool, local: u16, sec: u8) -> LinkDecision {
+    let ignore = LinkDecision { deliver: 0u8, reply: 0u8, sec: sec, broadcast: 0u8 };
+    let dir_master: bool = (ctrl & 0x80u8) != 0u8;
+    let fcb: bool = (ctrl & 0x20u8) != 0u8;
+    let fcv: bool = (ctrl & 0x10u8) != 0u8;
+    let func: u8 = ctrl & 0x4Fu8; // PRM bit + function code
+    // must come from the opposite station type
+    if dir_master == own_is_master { return ignore; }
+    // source must be an ordinary (non-reserved, non-broadcast, non-self) address
+    if src >= 0xFFF0u16 { return ignore; }
+    // destination classes
+    let broadcast: u8 =
+        if dst == 0xFFFFu16 { 1u8 } else if dst == 0xFFFEu16 { 2u8 } else if dst == 0xFFFDu16 { 3u8 } else { 0u8 };
+    if broadcast != 0u8 {
+        if own_is_master { return ignore; }
+    } else if dst == 0xFFFCu16 {
+        if !self_addr_enabled { return ignore; }
+    } else if dst >= 0xFFF0u16 {
+        return ignore;
+    } else if dst != local {
+        return ignore;
+    }
+    let is_user_data: bool = func == 0x44u8 || func == 0x43u8;
+    if broadcast != 0u8 && !is_user_data { return ignore; }
+    if func == 0x44u8 {
+        // unconfirmed user data
+        if fcv { return ignore; }
+        return LinkDecision { deliver: 1u8, reply: 0u8, sec: sec, broadcast: broadcast };
+    }
+    if func == 0x40u8 {
+        // reset link states
+        if fcv { return ignore; }
+        return LinkDecision { deliver: 0u8, reply: 1u8, sec: 2u8, broadcast: 0u8 };
+    }
+    if func == 0x43u8 {
+        // confirmed user data: only after a reset, delivered once per FCB toggle, ACKed unless broadcast
+        if !fcv { return ignore; }
+        if sec == 0u8 { return ignore; }
+        let expected: bool = sec == 2u8;
+        let reply: u8 = if broadcast == 0u8 { 1u8 } else { 0u8 };
+        if fcb == expected {
+            return LinkDecision { deliver: 1u8, reply: reply, sec: if expected { 1u8 } else { 2u8 }, broadcast: broadcast };
+        }
+        return LinkDecision { deliver: 0u8, reply: reply, sec: sec, broadcast: 0u8 };
+    }
+    if func == 0x49u8 {
+        // request link status: always answered
+        if fcv { return ignore; }
+        return LinkDecision { deliver: 2u8, reply: 2u8, sec: sec, broadcast: 0u8 };
+    }
+    if func == 0x0Bu8 {
+        // link status response (secondary -> primary)
+        return LinkDecision { deliver: 3u8, reply: 0u8, sec: sec, broadcast: 0u8 };
+    }
+    ignore
+}
